@@ -1,13 +1,15 @@
 import re
 from re import Pattern
 
+from flowmark.linewrapping.tag_handling import TEMPLATE_TAG_PATTERN
+
 ELLIPSIS_PATTERN: Pattern[str] = re.compile(
     r"(^|[\w\"\'“‘])(\s*)(\.\.\.)([.,:;?!)\-—\"\'”’]?)(\s*)",
     re.MULTILINE,
 )
 
 
-def ellipses(text: str) -> str:
+def _apply_ellipses_to_text(text: str) -> str:
     r"""
     Replace three consecutive dots with a proper ellipsis character (…).
 
@@ -56,3 +58,23 @@ def ellipses(text: str) -> str:
         return result
 
     return ELLIPSIS_PATTERN.sub(replace_match, text)
+
+
+def ellipses(text: str) -> str:
+    """
+    Replace `...` with the ellipsis character in prose, see `_apply_ellipses_to_text()`.
+
+    Like `smart_quotes()`, this never touches the inside of template tags (`{% %}`, `{# #}`,
+    `{{ }}`) or HTML comments: only the text between them is converted.
+    """
+    segments: list[str] = []
+    last_end = 0
+    for match in TEMPLATE_TAG_PATTERN.finditer(text):
+        start, end = match.span()
+        if start > last_end:
+            segments.append(_apply_ellipses_to_text(text[last_end:start]))
+        segments.append(match.group(0))
+        last_end = end
+    if last_end < len(text):
+        segments.append(_apply_ellipses_to_text(text[last_end:]))
+    return "".join(segments)
